@@ -402,13 +402,16 @@ def collect(pid, chk, v, vres, agg):
         out = run["out"]
         recs = read_jsonl(os.path.join(out, "result.jsonl"))
         sanlogs = {}
-        for f in glob.glob(os.path.join(out, "san.*")):
+        for f in glob.glob(os.path.join(out, "san.*")) + glob.glob(os.path.join(out, "err.*")):
             m = re.search(r"\.(\d+)$", f)
             if m:
                 try:
-                    sanlogs[int(m.group(1))] = open(f, errors="replace").read()
+                    txt = open(f, errors="replace").read()
                 except Exception:
-                    pass
+                    continue
+                if txt.strip():
+                    k = int(m.group(1))
+                    sanlogs[k] = sanlogs.get(k, "") + txt
         used_logs = set()
         done = any(r.get("t") == "done" for r in recs)
         started = any(r.get("t") == "start" for r in recs)
